@@ -11,7 +11,7 @@ from . import session as S
 
 SPEC = os.path.join(C.SPECS, "session")
 CONSOLE_KINDS = ["reject", "warnreject", "garbage", "stall", "close"]
-HTTPS_KINDS = ["status", "malformed", "eof", "nosuccess"]
+HTTPS_KINDS = ["status", "status:400", "status:403", "status:404", "status:503", "malformed", "eof", "nosuccess"]
 
 
 def scenarios(rep):
@@ -151,7 +151,8 @@ def plan_sessions(prop, tier, pars):
                 if not bad and p["n"] > 0 and (tier == "thorough" or p["fe"] == "doapprove"):
                     jobs.append((p, "faults"))
         elif prop in ("C09", "C17"):
-            if bad or p["marker"] == "unconfigured" or p["ha"] == "off" and p["type"] == "panos":
+            # `unconfigured` (no checkbanner) duplicates `present` - except for NSX, which has no marker at all
+            if bad or (p["marker"] == "unconfigured" and p["type"] != "nsx") or p["ha"] == "off" and p["type"] == "panos":
                 if prop == "C17" and p["verb"] == "approve" and p["fe"] == "doapprove":
                     jobs.append((p, "plain"))
                 continue
